@@ -224,7 +224,7 @@ pub fn run_replica_stage(ctx: &Ctx, cfg: &CrashCfg, n: u64) {
 
 pub fn replay(case: &Value, torn: bool) -> Check {
     let c: ReplCase = serde_json::from_value(case.clone()).map_err(|e| Failure::new("bad-replay", e.to_string()))?;
-    let cfg = CrashCfg { torn, torn_only: torn, recurse_every: None, suffix: true, check_contig: false, seed: 1 };
+    let cfg = CrashCfg { torn, torn_only: torn, recurse_every: None, suffix: true, check_contig: false, seed: 1, suffix_variant: 0 };
     let mut l = Local::default();
     test_session(&c, &cfg, &mut l)
 }
